@@ -7,6 +7,7 @@ import (
 	"fmt"
 	"reflect"
 	"sort"
+	"strings"
 	"sync"
 	"testing"
 
@@ -64,6 +65,10 @@ func PlanSteps(s Src) *StepsPlan {
 			beh.Kind = "undeclared"
 		case 4:
 			beh.Kind = "baddata"
+		case 5:
+			beh.Kind = "empty"
+		case 6:
+			beh.Kind = emptyBadKinds[s.Choose("st.emptybad", len(emptyBadKinds))]
 		}
 		p.Behs[nonce] = beh
 		if chance(s, "st.unknownstep", 1, 10) {
@@ -323,6 +328,34 @@ func (stepsEngine) Run(t *testing.T, batch string, tape *rt.Tape, runIdx uint64,
 					if invKey(inv) == opKey(op) {
 						wantInv++
 						wantArg = inv.Arg
+					}
+				}
+				// what the plan itself says must happen, independent of the library (the sequential
+				// reference runs the same code and shares its functional mistakes)
+				if op.Kind == "step" {
+					beh := plan.Behs[op.Nonce].Kind
+					nInv := len(invs[opKey(op)])
+					switch {
+					case op.Step == "no-such-step":
+						if errClass(got.Err) != "BadArgumentError" || nInv != 0 {
+							add("mismatch", "model:unknown-step", fmt.Sprintf("step %s: unknown step ID must give BadArgumentError and no handler call; got %s (%v), handler ran %d times", op.RunID, errClass(got.Err), got.Err, nInv))
+						}
+					case wantInv != 1 || nInv != 1:
+						// whether the input is acceptable is taken from the sequential reference (presence
+						// rules make "valid by construction" unreliable); a differing count is reported below
+					case beh == "ok" || beh == "alt" || beh == "error" || beh == "empty":
+						wantID := map[string]string{"ok": "success", "alt": "alt", "error": "error", "empty": "empty"}[beh]
+						if got.Err != nil || got.OutputID != wantID {
+							add("mismatch", "model:conforming-output-not-returned:"+beh, fmt.Sprintf("step %s: handler returned conforming data for declared output %q; CallStep gave (%q, %v)", op.RunID, wantID, got.OutputID, got.Err))
+						}
+					case beh == "undeclared":
+						if errClass(got.Err) != "InvalidOutputError" {
+							add("mismatch", "model:undeclared-output-id", fmt.Sprintf("step %s: undeclared output ID must give InvalidOutputError, got %s (%v) output %q", op.RunID, errClass(got.Err), got.Err, got.OutputID))
+						}
+					case beh == "baddata" || strings.HasPrefix(beh, "emptybad"):
+						if got.Err == nil {
+							add("mismatch", "model:non-conforming-output-accepted:"+beh, fmt.Sprintf("step %s: handler returned data that does not satisfy the declared output schema (%s); CallStep reported success (%q, %s)", op.RunID, beh, got.OutputID, short(got.Data)))
+						}
 					}
 				}
 				gotInvs := invs[opKey(op)]
